@@ -9,6 +9,7 @@ from sa.flow import show, sig, subterms
 from sa.model import AnalysisError, norm, parent, walk_no_nested
 
 from .common import (
+    include_rules,
     EXIT_CODES_SPEC,
     alts,
     callers_of,
@@ -517,6 +518,11 @@ def run(report, p):
     r8.check(True, None, None, "", construct=f"{nt} branch conditions scanned")
     report.extra["timestamp_tainted_parameters"] = sorted(f"{a}.{b}" for a, b in tparams)
 
+    # ---- rules shared with other properties (same mechanism, same rule, reported under every property it can break)
+    include_rules(report, p, 'c08', ['R8.1', 'R8.2'], 'verify/diff look recorded entries up through the same routing')
+    include_rules(report, p, 'c01', ['R1.1', 'R1.2'], 'an altered file is only detected if every byte is hashed with the recorded algorithm')
+    include_rules(report, p, 'c04', ['R4.1'], "create's verdict per file is the session's action decision")
+    include_rules(report, p, 'c12', ['R12.1', 'R12.7'], 'ignored paths must never be reported')
     report.not_decided += ["verdicts for concrete trees and mutations", "that the digest comparison detects every alteration (collision resistance)", "the wording of the output lines"]
 
 
